@@ -195,7 +195,7 @@ theorem nulls_stringToComplex (c c' : Column) (hc : ∀ x ∈ c.cells, NullCell 
       | true => rfl
       | false => have := hstr x hx hn; rw [hs] at this; cases this
     simp only [cellComplex, hs, hn, if_true] at hok ⊢
-    cases hna : x.na <;> simp only [hna] at hok ⊢ <;> first | (simp [okD, ofComplex_null, FloatV.isNan]) | cases hok
+    simp [okD, ofComplex_null, FloatV.isNan]
 
 /-- `pd.to_datetime` leaves a `NaT` exactly where the input has a missing value -/
 def DtNulls (o : ColOracle) (c : Column) : Prop :=
